@@ -41,6 +41,11 @@ class Result:
             for key, st, msg, loc in r.instances:
                 if st == "violation":
                     out.append({"rule": r.name, "key": "%s|%s" % (r.name, key), "msg": msg, "loc": loc})
+                elif st == "undecided":
+                    # on the pinned tree every instance of every rule is decided; an instance the analysis can no longer
+                    # decide is reported (fail closed), not silently dropped from the count
+                    out.append({"rule": r.name, "key": "%s|%s|undecided" % (r.name, key), "loc": loc,
+                                "msg": "UNDECIDED (failing closed: this instance is decided on the pinned tree): %s" % msg})
             n = r.count() - r.count("undecided")
             if n < r.floor:
                 out.append({"rule": r.name, "key": "%s|floor" % r.name, "loc": "",
